@@ -160,14 +160,26 @@ func (g *gatekeeper) snapshot() []hookEvent {
 	return append([]hookEvent(nil), g.events...)
 }
 
+// freeAddr hands out loopback addresses from a PRIVATE port range below the kernel's ephemeral range
+// (so that neither outgoing connections nor other processes' ":0" binds can take the port between
+// the probe and the server's own bind), spread by process id, each probed once before use.
+var portCursor = 0
+
 func freeAddr() string {
-	l, err := net.Listen("tcp", "127.0.0.1:0")
-	if err != nil {
-		die("no free port: %v", err)
+	base := 10000 + (os.Getpid()*61)%18000
+	for tries := 0; tries < 4000; tries++ {
+		port := 10000 + (base-10000+portCursor)%20000
+		portCursor++
+		a := fmt.Sprintf("127.0.0.1:%d", port)
+		l, err := net.Listen("tcp", a)
+		if err != nil {
+			continue
+		}
+		l.Close()
+		return a
 	}
-	a := l.Addr().String()
-	l.Close()
-	return a
+	die("no free port in the private range")
+	return ""
 }
 
 // ---------------------------------------------------------------- requests and their oracles
